@@ -11,16 +11,21 @@ import vcommon
 from vcommon import LEAN, BuildError, Result, log, lake_build, run
 
 
+def exe(name):
+    return os.path.join(LEAN, ".lake", "build", "bin", name)
+
+
 class Prepared:
     def __init__(self):
         self.bdir = None
         self.driver = os.path.join(LEAN, ".lake", "build", "bin", "ovnimodel")
+        self.bdir_asan = None
         self.problems = []       # infrastructure-level discrepancies
         self.driver_ok = False
         self.driver_log = ""
 
 
-def prepare(res, need_driver=True, asan=False):
+def prepare(res, need_driver=True, asan=False, drivers=("ovnimodel",)):
     """Build /repo's working tree, regenerate the Lean tables, build the
     driver. Failures are recorded (they become obligations that no longer
     check), not raised."""
@@ -43,7 +48,7 @@ def prepare(res, need_driver=True, asan=False):
     except BuildError as e:
         p.problems.append("translator: " + str(e)[-1500:])
     if need_driver:
-        ok, out = lake_build(["ovnimodel"])
+        ok, out = lake_build(list(drivers))
         p.driver_ok = ok
         p.driver_log = out
         if not ok:
